@@ -497,7 +497,10 @@ def run(repo, R):
     max_order, masks = run_direct(repo, R)
     run_guards(repo, R, max_order)
     from .c05_general import run_general
-    run_general(repo, R)
+    if R.tier == "thorough":
+        run_general(repo, R, max_m=6, max_n=8)
+    else:
+        run_general(repo, R)
     for w in ("gbasis.evals.eval.evaluate_basis", "gbasis.evals.eval_deriv.evaluate_deriv_basis"):
         f = repo.func(w)
         R.note_function(f.qualname)
